@@ -169,7 +169,9 @@ pub fn run(ctx: &RunCtx) -> Outcome {
     let mut common = gen::common_cfg();
     common.leaves.truncate(13);
     let c3 = space(&common, if quick { 3 } else { 4 }, false);
-    if !stage(ctx, &mut o, &p, "plain (delegable) patterns x all single sites", &expand(&c3), &gen::text_set(&gen::SIGMA5, 3, 0)) {
+    let mut plain_texts = gen::text_set(&gen::SIGMA5, 3, 0);
+    plain_texts.extend(gen::cr_texts());
+    if !stage(ctx, &mut o, &p, "plain (delegable) patterns x all single sites", &expand(&c3), &plain_texts) {
         return o;
     }
     let n = if quick { 4 } else { 5 };
